@@ -242,6 +242,17 @@ func (g *Gen) HistoryBulk(size int) []E {
 		}
 	}
 	opk := g.r.Intn(9)
+	if size >= 2 && size <= 64 && g.chance(0.25) {
+		// an update map without the stamp: the documents that already hold the value are selected (they
+		// count against skip and limit) although nothing shows on them
+		opk = 9
+		dir := []int{1, -1}[g.r.Intn(2)]
+		q = []interface{}{[]interface{}{"sort", []interface{}{[]interface{}{B("k"), dir}, []interface{}{B("_id"), 1}}},
+			[]interface{}{"skip", g.r.Intn(size/2 + 1)}, []interface{}{"limit", 1 + g.r.Intn(size/2+1)}}
+		if g.chance(0.5) {
+			q = append([]interface{}{[]interface{}{"where", []interface{}{"un", "gte", B("k"), []interface{}{"lit", small}}}}, q...)
+		}
+	}
 	if rewriteX {
 		opk = []int{2, 3, 7, 2, 3, 7, 0, 8}[g.r.Intn(8)]
 	}
@@ -266,6 +277,8 @@ func (g *Gen) HistoryBulk(size int) []E {
 			[]interface{}{B("u"), AStr(fmt.Sprintf("op%d", g.stamp))}, []interface{}{B("x"), nv}}}})
 	case 8:
 		evs = append(evs, E{"op": "UpdateFunc", "c": c, "q": q, "upd": []interface{}{"unset", B("x")}})
+	case 9:
+		evs = append(evs, E{"op": "Update", "c": c, "q": q, "upd": []interface{}{"setall", []interface{}{[]interface{}{B("x"), ANum(g.smallN[(7+g.r.Intn(2))%nvals], "i")}}}})
 	}
 	evs = append(evs, E{"op": "Count", "c": c, "q": []interface{}{}})
 	return evs
